@@ -494,6 +494,45 @@ func c17submit(p *Prog, r *Report) {
 			return okc && k == states["Babbling"] && flowsFromCall(x, func(f *types.Func) bool { return f.Name() == "GetState" }, 0)
 		}
 		g, _ := p.allPaths(c, []Pred{q}, all(1))
+		if !g {
+			// table dispatch: the call sits in a closure stored in a map under the constant key Babbling, and every
+			// invocation of an element of that map looks it up under GetState()
+			if cl := c.Parent(); cl.Parent() != nil {
+				par := cl.Parent()
+				okTable := false
+				for _, b := range par.Blocks {
+					for _, in := range b.Instrs {
+						mu, isMU := in.(*ssa.MapUpdate)
+						if !isMU {
+							continue
+						}
+						mc, isMC := unwrap(mu.Value).(*ssa.MakeClosure)
+						if !isMC || mc.Fn != ssa.Value(cl) {
+							if fv, isF := unwrap(mu.Value).(*ssa.Function); !isF || fv != cl {
+								continue
+							}
+						}
+						if k, isC := intConst(mu.Key); isC && k == states["Babbling"] {
+							okTable = true
+							// every other key under which this closure is stored must be Babbling too; and lookups
+							// of the map use the current state
+							for _, b2 := range par.Blocks {
+								for _, in2 := range b2.Instrs {
+									if lk, isL := in2.(*ssa.Lookup); isL && (lk.X == mu.Map || unwrap(lk.X) == unwrap(mu.Map)) {
+										if !flowsFromCall(lk.Index, func(f *types.Func) bool { return f.Name() == "GetState" }, 0) {
+											okTable = false
+										}
+									}
+								}
+							}
+						} else if isMC || true {
+							okTable = false
+						}
+					}
+				}
+				g = okTable
+			}
+		}
 		r.Check(g, rule, c.Parent().Name()+":babble-only-when-Babbling", p.ipos(c), fnName(c.Parent()), "the babbling loop is entered only in state Babbling", "babble() is called without state == Babbling")
 	}
 	if n == 0 {
